@@ -215,16 +215,23 @@ def _walk_job(job):
                 failed = True
             w.fail_at = None
             mark = len(w.calls)
-            ra1 = it.call(it.getattr(wk, meth), _mk_args(w, g, mode, 1, wk))
-            ra2 = it.call(it.getattr(wk, meth), _mk_args(w, f, mode, 1, wk))
+            try:
+                ra1 = it.call(it.getattr(wk, meth), _mk_args(w, g, mode, 1, wk))
+                mid = len(w.calls)
+                ra2 = it.call(it.getattr(wk, meth), _mk_args(w, f, mode, 1, wk))
+            except AbsRaise as ex:
+                return (failed, None, None, False, False, ["raises %s%s" % (ex.cls_name, proc._args(ex))], None, None)
             ca = _calls_sig(w, w.calls[mark:], "A")
+            ca1 = _calls_sig(w, w.calls[mark:mid], "A")
             ref = fresh(w, "B")
             mark = len(w.calls)
             rb1 = it.call(it.getattr(ref, meth), _mk_args(w, g, mode, 1, ref))
+            mid = len(w.calls)
             rb2 = it.call(it.getattr(ref, meth), _mk_args(w, f, mode, 1, ref))
             cb = _calls_sig(w, w.calls[mark:], "B")
+            cb1 = _calls_sig(w, w.calls[mark:mid], "B")
             return (failed, ca, cb, _value_sig(w, ra1) == _value_sig(w, rb1), _value_sig(w, ra2) == _value_sig(w, rb2),
-                    [proc.sc.node_str(w, x) if w.is_node(x) else repr(x)[:60] for x in (ra1, rb1, ra2, rb2)])
+                    [proc.sc.node_str(w, x) if w.is_node(x) else repr(x)[:60] for x in (ra1, rb1, ra2, rb2)], ca1, cb1)
 
         def post_inj(w, f, val, facts):
             return proc.ProcResult(shape, "valid", val)
@@ -233,12 +240,15 @@ def _walk_job(job):
             if pr.kind != "valid":
                 out["notes"].append("injection %d: %s %s" % (k, pr.kind, str(pr.detail)[:160]))
                 continue
-            failed, ca, cb, same1, same2, shown = pr.detail
+            failed, ca, cb, same1, same2, shown, ca1, cb1 = pr.detail
             if not failed:
                 continue       # the k-th call is not reached on this path
             out["injections"] += 1
+            if ca is None:
+                bad.append((k, "raises", "after a handler failed at call %d the next walk of another formula %s" % (k, shown[0])))
+                continue
             persistent = not info["one_shot"]
-            extra = [c for c in ca if c not in cb]
+            extra = [c for c in ca if c not in cb] or [c for c in ca1 if c not in cb1]
             if (ca != cb and not persistent) or extra:
                 bad.append((k, "calls", "after a handler failed at call %d the next walks make %d handler calls, a fresh "
                             "walker makes %d%s" % (k, len(ca), len(cb),
